@@ -278,16 +278,21 @@ PROPS["C05"] = {
              "premultiplied or straight alpha), 5..16-bit samples incl. values outside [0,1]; keyframes requested in random order with "
              "repeats, pool none / rayon. Oracle: reference compositor in f64 over the encoder's per-frame samples; every sample of every "
              "channel of every keyframe within 1e-5*max(1,|x|) plus a propagated f32 error bound for ill-conditioned straight-alpha "
-             "divisions; repeated renders bit-identical. signature = (frame-type sequence, blend-mode multiset, crop classes, alpha config); "
-             "non-trivial iff >= 2 frames and some non-Replace mode or crop"),
+             "divisions; repeated renders bit-identical. 1/5 of the cases are patch images: a ReferenceOnly frame of its own size + a full "
+             "frame with a random patch dictionary (1..4 source rectangles, 1..5 targets each, delta-coded positions, overlapping targets, "
+             "per colour / per extra channel patch modes none, replace, add, multiply with and without clamp), expected = the frame's samples "
+             "with every target applied in dictionary order in f64, tolerance = propagated f32 rounding bound (sums of out-of-range samples "
+             "cancel). signature = (frame-type sequence, blend-mode multiset, crop classes, alpha config) or (patches, colour kind, extra "
+             "channels, reference size class, patch mode set); non-trivial iff >= 2 frames and some non-Replace mode or crop / a patch sample applied"),
     "assumptions": [
         "extra-channel `source` presence is only generated where both readings of the condition agree (DESIGN.md section 6)",
         "ReferenceOnly frames are canvas-sized when used as blend sources (a smaller reference as background is invalid)",
-        "patches are not generated yet; canvases <= 64 px (quick) / 300 px multi-group (thorough)",
+        "patch modes with alpha weighting (blend/mul-add above/below) are not generated: the coding of their alpha channel index cannot be settled offline; patch targets lie inside the frame; full renders only (patches under region requests belong to C06, where a known finding covers them)",
+        "canvases <= 64 px (quick) / 300 px multi-group (thorough); patch images <= 160 px",
         "samples whose model error bound is unbounded (alpha mix within 1e-6 of 0) are skipped and counted",
     ],
     "level_text": "exploration: thousands of random frame sequences per run compared sample by sample with an independent compositor",
-    "level_note": "trusted: jxlgen::anim compositor + Modular encoder, comparison code in c05.rs",
+    "level_note": "trusted: jxlgen::anim compositor + Modular encoder, patch model in c05p.rs (self-test: C05P_SELFTEST=1 inverts the clamp rule in the model and must produce violations), comparison code in c05.rs",
     "technique": "runtime differential monitor: independent f64 compositor vs real renderer on generated multi-frame streams",
     "quick": {"cases": 100000, "floor": 2500, "time_budget": 240},
     "thorough": {"cases": 600000, "floor": 15000, "time_budget": 900},
